@@ -29,3 +29,6 @@ var rxSnapSeverity = map[string]rxSevSnap{
 
 // (*ecs).LookupRepository of updater/osv: the names Gen/Feeds listed.
 var rxSnapOsvRepos = []string{"crates.io", "go", "npm", "nuget", "oss-fuzz", "packagist", "pypi", "rubygems", "maven"}
+
+// pkg/pep440 (*Version).Version: the canonical pre-release labels Gen/Versions listed (candidate inputs only).
+var rxSnapPepLabels = []string{"a", "b", "rc"}
